@@ -196,6 +196,13 @@ func c10Run(t *testing.T, c *choice.Stream, r *Result, opt RunOpt, forced *c10Fo
 				}
 			}
 		}
+		if stuckAfter >= 0 && sc.kind == "select" && !streaming && c.Bool("stuck.early-eos.select", 1, 3) {
+			// the same for a query without input: the answer is complete before the
+			// request has been taken off the wire (the server acted on the Query
+			// packet and never looked at what follows it)
+			srv.Script = append(append([]simnet.Step{}, srv.Script[:sc.afterHandshake]...), simnet.Step{Label: "eos", Send: (&SPacket{Kind: "eos"}).Encode(cf)})
+			r.Fire("server_ends_stream_early")
+		}
 		var stuckSince time.Duration = -1
 		stuckNow := func() bool {
 			if stuckAfter < 0 || conn.StopReadAt < 0 || conn.OutLen() <= conn.StopReadAt {
